@@ -104,9 +104,10 @@ class Run:
                 if best is None or f['a'] >= best['a']: best = f
         return best
 
-    def run_verus(self, modules, whole=False, seed=None):
+    def run_verus(self, modules, whole=False, seed=None, rlimit=None):
         cmd = ['verus', self.woven_path, '--output-json', '--time', '--error-format=json', '--multiple-errors', '8',
                '--num-threads', '16']
+        if rlimit: cmd += ['--rlimit', str(rlimit)]
         if not whole:
             vl = sorted(set(re.findall(r'pub mod (vlib\w*)', self.w.prelude)))
             for m in sorted(modules) + ['vcanary'] + vl:
@@ -236,7 +237,16 @@ class Run:
         else:
             raise Undecided('verus front-end errors persist')
         if und:
-            raise Undecided('resource limit: ' + und[0].get('rendered', '')[:800])
+            # a function ran out of its resource limit: no verdict. Retry once with a 15x budget (costly, only on this path);
+            # functions that carry their own #[verifier::rlimit] keep it.
+            self.notes.append('resource limit hit; retried with --rlimit 150: ' + und[0].get('message', '')[:120])
+            res, diags, ms2, cmdline = self.run_verus(modules, whole=whole, rlimit=150)
+            ms += ms2
+            vf, other, und = self.classify(diags)
+            if other:
+                raise Undecided('verus front-end error on retry: ' + other[0].get('rendered', '')[:800])
+            if und:
+                raise Undecided('resource limit (also with --rlimit 150): ' + und[0].get('rendered', '')[:800])
         fails = [self.attribute(d) for d in vf]
         # canary
         canary = [f for f in fails if 'canary_must_fail' in f['fn'] or 'canary_must_fail' in f['rendered']]
